@@ -391,7 +391,7 @@ def make_group(cfg, rng, gid, big=False, force=None, stat=False, kinds=None):
             m1["add_u"] = cu
             rel = {"rel": "add", "c_u": cu}
         else:
-            kn, kd = rng.choice([(-1, 1), (2, 1), (-2, 1), (3, 1), (1, 4), (-1, 2), (4, 1)]) if not i16 \
+            kn, kd = rng.choice([(-1, 1), (2, 1), (-2, 1), (3, 1), (1, 4), (-1, 2), (4, 1), (1, 2 ** 30), (-1, 2 ** 30), (3, 2 ** 36)]) if not i16 \
                 else rng.choice([(-1, 1), (2, 1), (-2, 1)])
             m1["scale"] = [kn, kd]
             rel = {"rel": "scale", "kn": kn, "kd": kd}
